@@ -108,6 +108,18 @@ func msgText(m string) (string, bool) {
 		return "-> msg\nQUJDREVG", false
 	case "eof":
 		return "", false
+	case "x_manyargs":
+		return "-> confirm" + strings.Repeat(" "+b64("a"), 40) + "\n" + body("?"), true
+	case "x_longline":
+		return "-> msg " + strings.Repeat("A", 70000) + "\n\n", true
+	case "x_bigbody":
+		return "-> msg\n" + strings.Repeat(strings.Repeat("QUJD", 16)+"\n", 3000) + "\n", true
+	case "x_binary":
+		return "-> \x00\xff\x80 \x01\n\x00\x01\x02\n", true
+	case "x_confirm9":
+		return "-> confirm " + b64("y") + " " + b64("n") + " " + b64("m") + " " + b64("x") + " x y z w v\n" + body("?"), true
+	case "x_emptytype":
+		return "->  \n\n", true
 	}
 	panic("message " + m)
 }
@@ -193,7 +205,10 @@ func sig(c *pcase) string {
 }
 
 // runCase plays one conversation against the real client.
-func runCase(run *vk.Run, dir string, c *pcase, w *world.World) {
+func runCase(run *vk.Run, dir string, c *pcase, w *world.World) { runCaseMode(run, dir, c, w, false) }
+
+// runCaseMode plays one conversation; with onlyCrash only panics and hangs are judged (C14).
+func runCaseMode(run *vk.Run, dir string, c *pcase, w *world.World, onlyCrash bool) {
 	id := fmt.Sprintf("s%d", atomic.AddInt64(&counter, 1))
 	var steps []step
 	for _, m := range c.Script {
@@ -260,12 +275,17 @@ func runCase(run *vk.Run, dir string, c *pcase, w *world.World) {
 	select {
 	case o = <-done:
 	case <-time.After(20 * time.Second):
-		run.Violation("C16:hang:"+s, "the client call did not return within 20 s after the plugin finished its script", rp)
+		run.Violation(run.Prop+":hang:plugin:"+s, "the plugin client call did not return within 20 s after the plugin finished its script", rp)
 		return
 	}
 	run.Eval(1)
 	if o.err != nil && strings.HasPrefix(o.err.Error(), "PANIC") {
-		run.Violation("C16:panic:"+s, o.err.Error(), rp)
+		run.Violation(run.Prop+":panic:plugin:"+s, "hostile plugin output made the client panic: "+o.err.Error(), rp)
+		return
+	}
+	if onlyCrash {
+		os.Remove(filepath.Join(dir, "scripts", id+".json"))
+		os.Remove(filepath.Join(dir, "scripts", id+".out"))
 		return
 	}
 	if o.err != nil && strings.Contains(o.err.Error(), "couldn't start plugin") {
@@ -473,4 +493,33 @@ func endToEnd(run *vk.Run, dir string, w *world.World) {
 		run.Violation("C16:no-key-blocks-other-identities", "wrong plaintext", nil)
 	}
 	run.Distinct("end-to-end")
+}
+
+// HostileForC14 plays every one- and two-message conversation of the alphabet, plus oversized and binary variants, with all
+// UI callbacks present, and judges only panics and hangs (C14: a plugin's protocol output is hostile input too).
+func HostileForC14(run *vk.Run) {
+	dir := Setup()
+	w := world.New(run.Seed)
+	var cases []pcase
+	alpha := []string{"rs_ok", "rs_idx1", "rs_neg", "rs_nan", "rs_short", "labels0", "labels_ab", "fk_ok", "fk_idx1", "fk_neg", "fk_nan", "fk_args0", "fk_args2",
+		"error", "done", "msg", "req_secret", "req_public", "confirm1", "confirm2", "confirm0", "confirm3", "confirm_bad64", "unknown", "garbage", "trunc", "eof",
+		"x_manyargs", "x_longline", "x_bigbody", "x_binary", "x_confirm9", "x_emptytype"}
+	for _, mode := range []string{"recipient", "identity"} {
+		for _, a := range alpha {
+			for _, b := range append([]string{""}, "done", "confirm3", "msg", "x_confirm9") {
+				c := pcase{Mode: mode}
+				c.UI.Disp, c.UI.Req, c.UI.Conf = "ok", "ok", "yes"
+				c.Script = []string{a}
+				if b != "" {
+					c.Script = append(c.Script, b)
+				}
+				cases = append(cases, c)
+			}
+		}
+	}
+	vk.Parallel(len(cases), 16, func(i int) {
+		runCaseMode(run, dir, &cases[i], w, true)
+		run.Distinct("plugin:" + sig(&cases[i]))
+	})
+	run.Add("hostile_plugin_conversations", len(cases))
 }
